@@ -2,6 +2,7 @@ mod client;
 mod daemon;
 mod shm;
 mod ra;
+mod poller;
 mod wire;
 mod rng;
 mod util;
@@ -15,9 +16,12 @@ fn exec_line(line: &str) -> String {
     match toks.first().copied() {
         Some("client") => client::exec(&toks),
         Some("client2") => client::exec2(&toks),
+        Some("corder") => client::exec_order(&toks),
         Some("extract") => daemon::exec_extract(&toks),
         Some("gen") => shm::exec_gen(&toks),
         Some("sl") => ra::exec_sl(line),
+        Some("poll") => poller::exec(&toks, line).unwrap_or_else(|| "bad-op".into()),
+        Some("slx") => ra::exec_slx(&toks),
         Some("upd") => daemon::exec_upd(line),
         _ => "bad-op".into(),
     }
@@ -50,6 +54,12 @@ fn main() {
             let mut rng = rng::Rng::new(seed);
             for _ in 0..count { emit(client::gen_case(&mut rng)); }
         }
+        Some("corder") => {
+            let seed: u64 = args[2].parse().unwrap();
+            let count: usize = args[3].parse().unwrap();
+            let mut rng = rng::Rng::new(seed ^ 0xc12);
+            for _ in 0..count { let c = client::gen_case(&mut rng); emit(format!("corder {}", &c[7..])); }
+        }
         Some("client2") => {
             let seed: u64 = args[2].parse().unwrap();
             let count: usize = args[3].parse().unwrap();
@@ -63,6 +73,19 @@ fn main() {
             for _ in 0..count { emit(daemon::gen_extract(&mut rng)); }
         }
         Some("genall") => { drop(emit); shm::gen_all(|req, ans| { writeln!(out, "{} => {}", req, ans).unwrap(); }); }
+        Some("poll") => {
+            let seed: u64 = args[2].parse().unwrap();
+            let count: usize = args[3].parse().unwrap();
+            for g in poller::grid() { emit(g); }
+            let mut rng = rng::Rng::new(seed ^ 0xC13);
+            for _ in 0..count { emit(poller::gen_poll(&mut rng)); }
+        }
+        Some("slxgen") => {
+            // one full exhaustion of the retry budget + short scripted runs (more with `all`)
+            let mut v = vec!["slx 2 1000", "slx 2 1", "slx 3 5", "slx 0 7", "slx 65534 1", "slx 4 1"];
+            if args.get(2).map(|s| s.as_str()) == Some("all") { v.extend(["slx 65534 3", "slx 4 2", "slx 65532 40000"]); }
+            for l in v { emit(l.to_string()); }
+        }
         Some("slgen") => {
             let seed: u64 = args[2].parse().unwrap();
             let count: usize = args[3].parse().unwrap();
